@@ -79,4 +79,44 @@ theorem kindsConsistent_typed (t : List JCell) (h : kindsConsistent (t.map JCell
     rw [this]; rfl
 
 
+/-- `strptime(strftime(d))` is `d` for real dates with a four-digit year -/
+theorem parseIso_dateIso (d : Date) (h : wfDate d = true) : parseIso (dateIso d) = .ok d := by
+  obtain ⟨y, m, dd⟩ := d
+  simp only [wfDate, Date.valid, Bool.and_eq_true, decide_eq_true_eq] at h
+  obtain ⟨⟨⟨⟨⟨hm1, hm2⟩, hd1⟩, hd2⟩, hy1⟩, hy2⟩ := h
+  have hdd : dd < 32 := by have := dim_le_31 y m; omega
+  obtain ⟨n, rfl⟩ : ∃ n : Nat, y = (n : Int) := ⟨y.toNat, by omega⟩
+  have hn1 : 1000 ≤ n := by omega
+  have hn2 : n ≤ 9999 := by omega
+  unfold parseIso dateIso dateIsoChars yearChars
+  simp only [String.toList_ofList, Int.toNat_natCast, natDigits_year n hn1 hn2, pad2,
+    List.cons_append, List.nil_append]
+  unfold parseIsoChars
+  rw [splitDash4 _ _ _ _ _ (by rw [digitChar_mod]; exact digitChar_ne_dash _ (Nat.mod_lt _ (by omega)))
+    (by rw [digitChar_mod]; exact digitChar_ne_dash _ (Nat.mod_lt _ (by omega)))
+    (by rw [digitChar_mod]; exact digitChar_ne_dash _ (Nat.mod_lt _ (by omega)))
+    (by rw [digitChar_mod]; exact digitChar_ne_dash _ (Nat.mod_lt _ (by omega)))]
+  simp only []
+  rw [splitDash2 _ _ _ (by rw [digitChar_mod]; exact digitChar_ne_dash _ (Nat.mod_lt _ (by omega)))
+    (by rw [digitChar_mod]; exact digitChar_ne_dash _ (Nat.mod_lt _ (by omega)))]
+  simp only []
+  have e1 : digitVal? (digitChar (n / 1000)) = some (n / 1000) := digitVal_digitChar _ (by omega)
+  have e2 : digitVal? (digitChar (n / 100)) = some (n / 100 % 10) := by
+    rw [digitChar_mod]; exact digitVal_digitChar _ (Nat.mod_lt _ (by omega))
+  have e3 : digitVal? (digitChar (n / 10)) = some (n / 10 % 10) := by
+    rw [digitChar_mod]; exact digitVal_digitChar _ (Nat.mod_lt _ (by omega))
+  have e4 : digitVal? (digitChar n) = some (n % 10) := by
+    rw [digitChar_mod]; exact digitVal_digitChar _ (Nat.mod_lt _ (by omega))
+  have e5 := smallField_month m (by omega) hm1
+  have e6 := smallField_day dd hdd hd1
+  simp only [pad2] at e5 e6
+  rw [e1, e2, e3, e4, e5, e6]
+  simp only []
+  have hy : 1000 * (n / 1000) + 100 * (n / 100 % 10) + 10 * (n / 10 % 10) + n % 10 = n := by omega
+  rw [hy]
+  have : ¬ (n = 0 ∨ m > 12 ∨ dd > dim (n : Int) m) := by omega
+  simp [this]
+
+
+
 end Bermuda.JsonIO
